@@ -42,10 +42,10 @@ import (
 
 // richKinds are the transaction kinds of the rich profile (appended to txKinds).
 var richKinds = []string{"pm-pairfee", "txf-setfee", "pr-admin", "lock-force", "lock-extend", "lock-receiver", "cl-add", "cl-transfer",
-	"gamm-stable", "gamm-joinswap", "gamm-exitswap", "vp-set", "vp-delegate", "vp-undelegate", "sa-add", "sa-remove"}
+	"gamm-stable", "gamm-joinswap", "gamm-exitswap", "vp-set", "vp-delegate", "vp-undelegate", "sa-add", "sa-remove", "lock-burst"}
 
-var richEarly = []int{3, 4, 3, 1, 1, 1, 1, 1, 4, 2, 1, 3, 2, 1, 2, 1}
-var richLate = []int{2, 1, 3, 3, 3, 2, 3, 2, 1, 3, 3, 1, 2, 2, 1, 1}
+var richEarly = []int{3, 4, 3, 1, 1, 1, 1, 1, 4, 2, 1, 3, 2, 1, 2, 1, 2}
+var richLate = []int{2, 1, 3, 3, 3, 2, 3, 2, 1, 3, 3, 1, 2, 2, 1, 1, 1}
 
 func acctAddr(i int) string {
 	return sdk.AccAddress(simchain.AcctKey(i).PubKey().Address()).String()
@@ -413,6 +413,21 @@ func (v *view) buildRich(st simcore.Step, sender int) []sdk.Msg {
 		return one(&valsettypes.MsgDelegateToValidatorSet{Delegator: me, Coin: sdk.NewCoin("uosmo", osmomath.NewInt(1_000_000+x1%3_000_000_000))})
 	case "vp-undelegate":
 		return one(&valsettypes.MsgUndelegateFromValidatorSet{Delegator: me, Coin: sdk.NewCoin("uosmo", osmomath.NewInt(100_000+x1%1_000_000_000))})
+	case "lock-burst":
+		// many locks of one denomination with as many different durations in one transaction: the per-denomination
+		// accumulation tree then has more leaves than one node holds
+		var out []sdk.Msg
+		denom, _ := pick([]string{"stk", "uion"}, x0)
+		have := v.bal(sender, denom)
+		k := 12 + int(x1%6)
+		for j := 0; j < k; j++ {
+			amt := bp(have, 1+int64(j)%5)
+			if !amt.IsPositive() {
+				return nil
+			}
+			out = append(out, &lockuptypes.MsgLockTokens{Owner: me, Duration: time.Duration(3+7*int64(j)+x2%5) * time.Second, Coins: sdk.NewCoins(sdk.NewCoin(denom, amt))})
+		}
+		return out
 	case "sa-add":
 		// a second signature authenticator: the account's own key, or another account's key
 		pk := w.g.Privs[sender].PubKey()
